@@ -1,5 +1,7 @@
 """Fixed list of edits for the mutation self-test (tools/mutest.py)."""
 L = "crates/lexer/src/lib.rs"
+P = "crates/parser/src/parser.rs"
+I = "crates/parser/src/input.rs"
 MUTANTS = [
     # ---- U-MLS
     dict(name="mls-no-trim-check", prop="C12", units=["u_mls"], file=L, expect=1,
@@ -10,4 +12,32 @@ MUTANTS = [
          old="    if lines < 2 {\n        return None;\n    }\n\n    lex.bump", new="    if lines < 1 {\n        return None;\n    }\n\n    lex.bump"),
     dict(name="mls-harmless-comment", prop="C12", units=["u_mls"], file=L, expect=0,
          old="// Keep the newline between string lines.", new="// keep newline"),
+    # ---- U-TREE
+    dict(name="tree-always-start-node", prop="C12", units=["u_tree"], file=P, expect=1,
+         old="if kind != MySyntaxKind::TombStone {", new="if kind != MySyntaxKind::ErrorTree {"),
+    dict(name="tree-advance-skips-token", prop="C12", units=["u_tree"], file=P, expect=1,
+         old="                        builder.token(token.kind.to_syntax_kind(), token.text);\n                        cursor += 1;\n                    }\n                }\n                Event::Error",
+         new="                        cursor += 1;\n                    }\n                }\n                Event::Error"),
+    dict(name="tree-trivia-break-flipped", prop="C12", units=["u_tree"], file=P, expect=1,
+         old="if token.kind == T![eof] || !token.kind.is_trivia() {", new="if token.kind == T![eof] || token.kind.is_trivia() {"),
+    dict(name="tree-chain-off-by-one", prop="C12", units=["u_tree"], file=P, expect=1,
+         old="idx += fwd;", new="idx += fwd + 1;"),
+    dict(name="tree-error-range-first-token", prop="C12", units=["u_tree"], file=P, expect=0,
+         old=".or_else(|| tokens.last().map(|token| token.range));", new=".or_else(|| tokens.last().map(|token| token.range)); // eof"),
+    dict(name="tree-kinds-forward-order", prop="C12", units=["u_tree"], file=P, expect=2,
+         old="for kind in kinds.into_iter().rev() {", new="for kind in kinds.into_iter() {"),
+    # ---- U-PCORE
+    dict(name="pcore-advance-no-fuel-reset", prop="C04", units=["u_pcore"], file=P, expect=1,
+         old="        self.fuel.set(256);\n        self.input.skip();", new="        self.input.skip();"),
+    dict(name="pcore-peek-no-eof-on-stall", prop="C04", units=["u_pcore"], file=P, expect=1, count=2,
+         old="            return T![eof];\n        }\n        self.fuel.set(self.fuel.get() - 1);", new="        }\n        self.fuel.set(self.fuel.get().saturating_sub(1));"),
+    dict(name="pcore-precede-wrong-offset", prop="C12", units=["u_pcore"], file=P, expect=1,
+         old="*forward_parent = Some(m.index - self.index)", new="*forward_parent = Some(m.index - self.index + 1)"),
+    dict(name="pcore-advance-double-skip", prop="C12", units=["u_pcore"], file=P, expect=1,
+         old="        self.input.skip();\n        self.stuck_reported.set(false);", new="        self.input.skip();\n        self.input.skip();\n        self.stuck_reported.set(false);"),
+    # ---- U-INPUT
+    dict(name="input-nth-counts-trivia", prop="C12", units=["u_input"], file=I, expect=1,
+         old="            if !kind.is_trivia() {\n                if remaining == 0 {", new="            if true {\n                if remaining == 0 {"),
+    dict(name="input-skip-past-end", prop="C04", units=["u_input"], file=I, expect=1,
+         old="        if !self.eof() {\n            self.cursor += 1;", new="        if self.eof() {\n            self.cursor += 1;"),
 ]
